@@ -31,13 +31,15 @@ where
         // is clamped to where disk still agrees with the rolled-back state.
         // After an earlier un-truncating rollback the disk may be shorter than
         // `truncated_start`; the missing prefix is then at the front of `pushed`.
-        let cur_stored_len = self.stored_len().min(self.real_stored_len());
+        // The record is a delta against the last committed state: measure against that
+        // state's length and push buffer, not against edits made since the commit.
+        let cur_stored_len = self.base.prev_stored_len().min(self.real_stored_len());
         let agree_at = change.truncated_start.min(cur_stored_len);
         let carried = change.truncated_start - agree_at;
         // A damaged record can ask for more than the buffer holds: refuse before allocating.
         let carried_values = self
             .base
-            .pushed()
+            .prev_pushed()
             .get(..carried)
             .ok_or(crate::Error::ExpectVecToHaveIndex)?;
         let mut buf = Vec::with_capacity(
